@@ -550,7 +550,7 @@ def reassembly_rules(chk, tab, rule):
             chk.ob(rule, "pages is only cleared or appended to", False, key="vsign:pages-write:%s" % str(eff.get("pages"))[:60], where=where, detail=str(eff.get("pages")))
         if eff.get("pending") not in ("unchanged", "cleared", "append", "set", None) and "panic" not in eff:
             chk.ob(rule, "pending data is only cleared, or extended with the message's own bytes", False, key="vsign:pending-write:%s" % str(eff.get("pending"))[:60], where=where, detail=str(eff.get("pending")))
-    chk.floor(rule, "page-storing paths", n, 2)
+    chk.floor(rule, "page-storing paths", n, 1)
 
 
 # ---- C14 ----------------------------------------------------------------------------------
@@ -653,5 +653,5 @@ def bus_loop(chk, prog):
                 chk.ob("C14.O4", "bus returns Ok(None) or Ok(Some(reply))", False, key="vbus:ret-shape:%s" % fmt_term(v)[:40], where=where)
             others = [e for e in p.trace if e[0] in ("write", "store") or (e[0] == "call" and e not in calls)]
             chk.ob("C14.O4", "the bus touches the signs only through process_message", not others, key="vbus:other-effects", where=where, detail=str(others[:1]))
-        chk.floor("C14.O4", "bus return paths%s" % (" (logging on)" if log_on else ""), n_ret, 3)
+        chk.floor("C14.O4", "bus return paths%s" % (" (logging on)" if log_on else ""), n_ret, 2)
     chk.note_analysed("functions", [fn["name"]])
